@@ -154,6 +154,7 @@ type Case struct {
 	X       *Op      `json:"x,omitempty"`       // conc cases: the call parked at its announce point
 	Y       []Op     `json:"y,omitempty"`       // conc cases: the calls made meanwhile on another goroutine
 	Park    string   `json:"park,omitempty"`    // conc cases: "now" (inside cache.Now) or "cb" (inside the callback)
+	ParkAt  int      `json:"parkat,omitempty"`  // conc cases: park at the k-th such call (0/1 = the first)
 	CFeed   []NotiJ  `json:"cfeed,omitempty"`   // conc cases: the whole feed, in callback-entry order
 	CFinal  []TObsJ  `json:"cfinal,omitempty"`  // conc cases: every name at the end
 	CNote   string   `json:"cnote,omitempty"`   // conc cases: parked / blocked / hang
